@@ -26,7 +26,7 @@ type sliceBlock struct {
 	start int      // first case index
 }
 
-var sliceForms = []string{"bare [a:b:c]", "a[a:b:c]", "[*][a:b:c]", "[a:b:c][0] (projection rhs)", "typed []float64", "typed []string", "[a:b:c].a (projection rhs)"}
+var sliceForms = []string{"bare [a:b:c]", "a[a:b:c]", "[*][a:b:c]", "[a:b:c][0] (projection rhs)", "typed []float64", "typed []string", "[a:b:c].a (projection rhs)", "[a:b:c].type(@) over elements some of which are null (a right-hand side that gives null a value)", "[a:b:c].not_null(@, 'n') over numbers"}
 
 func window(n, pad int) []string {
 	v := []string{""}
@@ -87,6 +87,10 @@ func c08(r *mon.Run) {
 		for form := 1; form <= 5; form++ {
 			add(n, window(n, 2), form)
 		}
+	}
+	for _, n := range []int{0, 1, 2, 3, 4, 5, 6, 7, 9} {
+		add(n, window(n, 2), 7)
+		add(n, window(n, 1), 8)
 	}
 	bounds := []string{"", "0", "1", "-1", "2", "-2", "2147483647", "-2147483647", "2147483648", "-2147483648",
 		"9223372036854775806", "-9223372036854775806", "9223372036854775807", "-9223372036854775807", "-9223372036854775808"}
@@ -163,6 +167,20 @@ func c08(r *mon.Run) {
 				outer[i] = map[string]interface{}{"a": float64(100 + i)}
 			}
 			return gen.Chain(nil, sl, gen.StField("a")), outer, outer
+		case 7, 8:
+			// the slice selects exactly the positions Python selects - no more (a spare null at the end), no fewer (a null
+			// element is an element): a right-hand side that turns null into a value shows both
+			outer := make([]interface{}, b.n)
+			for i := range outer {
+				outer[i] = float64(i)
+				if b.form == 7 && i%3 == 1 {
+					outer[i] = nil
+				}
+			}
+			if b.form == 7 {
+				return gen.Chain(nil, sl, gen.StFunc("type", gen.Current())), outer, outer
+			}
+			return gen.Chain(nil, sl, gen.StFunc("not_null", gen.Current(), gen.Raw("n"))), outer, outer
 		case 4:
 			fs := make([]float64, b.n)
 			for i := range fs {
